@@ -203,6 +203,65 @@ theorem formStep_inv (d nc : Nat) (hx : Bool) (e0 : Ev α X Lb) (rest : List (Ev
         simp only [expandCat, hpv2]
         exact rowAt_event_rows d e he.len he.nodup L (fun x hx' => (hmem x).2 (Or.inr hx')) l' hl'
 
+/-- the whole loop keeps the invariant -/
+theorem formCat_inv (d nc : Nat) (hx : Bool) (e0 : Ev α X Lb) : ∀ (es rest : List (Ev α X Lb))
+    (a : Acc α X Lb), Inv d nc hx e0 rest a → (∀ e ∈ es, EvOk hx e ∧ e.cat.hasMx = true) →
+    ∃ a', formCat d nc (some a) es = .ok (some a') ∧ Inv d nc hx e0 (rest ++ es) a'
+  | [], rest, a, hinv, _ => ⟨a, rfl, by simpa using hinv⟩
+  | e :: es, rest, a, hinv, hes => by
+      obtain ⟨a1, h1, hinv1⟩ := formStep_inv d nc hx e0 rest a e hinv (hes e List.mem_cons_self).1
+        (hes e List.mem_cons_self).2
+      obtain ⟨a2, h2, hinv2⟩ := formCat_inv d nc hx e0 es (rest ++ [e]) a1 hinv1
+        fun e' he' => hes e' (List.mem_cons_of_mem _ he')
+      refine ⟨a2, ?_, by simpa using hinv2⟩
+      simp only [formCat, h1]
+      exact h2
+
 end inv
+
+/-! ### the fold by label against the specification `FirstBest` -/
+section best
+variable {α X L β : Type} [LinearOrder β] {key : α → β}
+
+/-- a NaN entry in front of the list does not change which entry is the first best, when that one
+is a number -/
+theorem firstBest_cons_nan {all : List (Tr α X L)} {r f : Tr α X L} (hf : f.v = none)
+    (h : FirstBest key (f :: all) r) (hr : r.v ≠ none) : FirstBest key all r := by
+  obtain ⟨pre, post, hall, hpre, hpost, hnone⟩ := h
+  cases pre with
+  | nil =>
+    simp only [List.nil_append, List.cons.injEq] at hall
+    exact absurd (hall.1 ▸ hf) hr
+  | cons p pre' =>
+    simp only [List.cons_append, List.cons.injEq] at hall
+    exact ⟨pre', post, hall.2, fun t ht => hpre t (List.mem_cons_of_mem _ ht), hpost,
+      fun h' => absurd h' hr⟩
+
+/-- the first best is NaN only when every entry is -/
+theorem firstBest_none_all {all : List (Tr α X L)} {r : Tr α X L} (h : FirstBest key all r)
+    (hr : r.v = none) : ∀ t ∈ all, t.v = none := by
+  intro t ht
+  cases hv : t.v with
+  | none => rfl
+  | some w =>
+    obtain ⟨u, hu, -⟩ := firstBest_ge h t ht w hv
+    rw [hr] at hu
+    cases hu
+
+end best
+
+section fold
+variable {α X Lb : Type} [LT α] [DecidableLT α] [DecidableEq Lb]
+
+theorem foldl_upd2_eq (c : Cur α (Option X) String) (ms : List (Cur α (Option X) String)) :
+    ms.foldl (fun c m => upd2 (some c) (m.hi, m.lo)) c
+      = ⟨runTr gtB c.hi (ms.map (·.hi)), runTr ltB c.lo (ms.map (·.lo))⟩ := by
+  induction ms generalizing c with
+  | nil => rfl
+  | cons m ms ih =>
+    rw [List.foldl_cons, ih]
+    rfl
+
+end fold
 
 end PyYetiVerif.ExtremaLabels
